@@ -20,14 +20,14 @@ func init() {
 }
 
 type arRun struct {
-	st      *State
-	entry   map[string]Val // fields of the returned entry (on success)
-	err     string         // "", "nonnil", "EOF"
-	newOff  Val
-	secArgs []Val // arguments of io.NewSectionReader (off, n)
-	nSec    int
-	path    []string
-	keeps   bool // Ar keeps a reference to the section reader
+	st       *State
+	entry    map[string]Val // fields of the returned entry (on success)
+	err      string         // "", "nonnil", "EOF"
+	newOff   Val
+	secArgs  []Val // arguments of io.NewSectionReader (off, n)
+	nSec     int
+	path     []string
+	keeps    bool // Ar keeps a reference to the section reader
 	probeEOF bool // a read at or past the end of the member's data hit the end of the archive
 }
 
